@@ -267,21 +267,22 @@ impl DnsCache {
         }
 
         // get the existing records for the type.
-        let entry_name_lower = entry_name.to_lowercase();
-        let record_vec = match incoming.get_type() {
-            RRType::PTR => self.ptr.entry(entry_name).or_default(),
-            RRType::SRV => self.srv.entry(entry_name).or_default(),
-            RRType::TXT => self.txt.entry(entry_name).or_default(),
-            RRType::A | RRType::AAAA => self.addr.entry(entry_name_lower).or_default(),
-            RRType::NSEC => self.nsec.entry(entry_name).or_default(),
+        let (map, key) = match incoming.get_type() {
+            RRType::PTR => (&mut self.ptr, entry_name),
+            RRType::SRV => (&mut self.srv, entry_name),
+            RRType::TXT => (&mut self.txt, entry_name),
+            RRType::A | RRType::AAAA => (&mut self.addr, entry_name.to_lowercase()),
+            RRType::NSEC => (&mut self.nsec, entry_name),
             _ => return None,
         };
 
-        // No existing records for this name and type, and not for us.
-        if record_vec.is_empty() && !is_for_us {
+        // No existing records for this name and type, and not for us: keep
+        // nothing, not even an empty entry for the name.
+        if !is_for_us && map.get(&key).map_or(true, |records| records.is_empty()) {
             trace!("add_or_update: not for us: {}", incoming.get_name());
             return None;
         }
+        let record_vec = map.entry(key).or_default();
 
         if incoming.get_cache_flush() {
             let now = current_time_millis();
